@@ -125,6 +125,13 @@ def conformance_case(arg):
             if r["csr"] is not None:
                 rp, cv, dv = r["csr"]
                 if rp != ot.rowptrs or cv != ot.colvals:
+                    # the reader sees the assignments of the text; the executed code also shows what the text never
+                    # assigns (uninitialised pointers / indices).  A layout the text leaves incomplete is the generated
+                    # code's problem, not the reader's
+                    nnz_ = len(cv)
+                    if len(ot.rowptrs) != neq + 1 or len(ot.colvals) != nnz_ or (ot.rowptrs and ot.rowptrs[-1] != nnz_):
+                        viols.append((f"C03:csr-incomplete:{backend}", f"{backend}: the emitted Jac assigns {len(ot.rowptrs)} row pointers and {len(ot.colvals)} column indices for NEQUATIONS = {neq}, NNZ = {nnz_}; the executed code leaves the rest uninitialised", dict(label, backend=backend)))
+                        break
                     raise HarnessError(f"E4 CSR layout disagrees with the compiled Jac on {label}")
     return nvals, viols
 
@@ -152,8 +159,11 @@ def backends_vs_dense(net, label):
         for g, yv in enumerate(yvals):
             yv[mac.value("IDX_TGAS")] = (8.0e3, 2.5e4, 1.2e4)[g % 3]
     base = {"nH": 1e4, "Tgas": 50.0, "zeta": 1.3e-17, "Av": 1.0, "omega": 0.5}
-    p3 = [dict(base, Tgas=50.0, nH=1e4, zeta=1.3e-17, mu=-1.0, gamma=-1.0), dict(base, Tgas=220.0, nH=3e5, zeta=5e-16, mu=1.3, gamma=1.6), dict(base, Tgas=15.0, nH=2e3, zeta=2e-18, mu=-1.0, gamma=-1.0)]
+    # mu and gamma are independent: both left at their defaults, both given, and one of each
+    p3 = [dict(base, Tgas=50.0, nH=1e4, zeta=1.3e-17, mu=-1.0, gamma=-1.0), dict(base, Tgas=220.0, nH=3e5, zeta=5e-16, mu=1.3, gamma=1.6), dict(base, Tgas=15.0, nH=2e3, zeta=2e-18, mu=1.3, gamma=-1.0)]
     plist = [p3[g % 3] for g in range(ng)]
+    if ng > 3:
+        plist[3] = dict(base, Tgas=50.0, nH=1e4, zeta=1.3e-17, mu=-1.0, gamma=1.6)
     rd = OR.build_and_run(fd, "dense", yvals, plist)
     if "error" in rd:
         return 0, []
@@ -175,14 +185,14 @@ def backends_vs_dense(net, label):
         for g, (a, c) in enumerate(zip(rd["runs"], rb["runs"])):
             for i, (x, y) in enumerate(zip(a["ydot"], c["ydot"])):
                 if not _close(x, y):
-                    bad = ("ydot", f"system {g}{' (mu, gamma left at their defaults)' if g % 3 != 1 else ''}: {b} gives ydot[{i}] = {y!r}, dense gives {x!r} for the same state")
+                    bad = ("ydot", f"system {g}{' (mu and/or gamma left at their defaults)' if g % 3 != 1 else ''}: {b} gives ydot[{i}] = {y!r}, dense gives {x!r} for the same state")
                     break
             if bad:
                 break
             for (r, cc), x in a["jac"].items():
                 y = c["jac"].get((r, cc), 0.0)
                 if not _close(x, y):
-                    bad = ("jac", f"system {g}{' (mu, gamma left at their defaults)' if g % 3 != 1 else ''}: {b} gives J[{r}][{cc}] = {y!r}, dense gives {x!r} for the same state")
+                    bad = ("jac", f"system {g}{' (mu and/or gamma left at their defaults)' if g % 3 != 1 else ''}: {b} gives J[{r}][{cc}] = {y!r}, dense gives {x!r} for the same state")
                     break
             if bad:
                 break
@@ -395,7 +405,8 @@ def cuda_fixed_case(i):
     with quiet():
         reacs = [
             Reaction(["H", "e-"], ["H+", "e-", "e-"], 1.0, 1e9, 1e-10, 0.5, 15.0, ReactionType.GAS_TWOBODY, 1),
-            Reaction(["H+", "e-"], ["H"], 1.0, 1e9, 3e-12, -0.75, 0.0, ReactionType.GAS_TWOBODY, 2),
+            # (window [100, 1e9): of the systems one CUDA thread walks through - Tgas 220, 50, ... - some are inside, some outside)
+            Reaction(["H+", "e-"], ["H"], 100.0, 1e9, 3e-12, -0.75, 0.0, ReactionType.GAS_TWOBODY, 2),
             Reaction(["H2", "CR"], ["H", "H"], -1.0, -1.0, 0.5, 0.0, 0.0, ReactionType.GAS_COSMICRAY, 3),
         ]
         net = Network(reacs, cooling=[[], ["CIC_HI"], ["CIC_HI", "RC_HII"]][i], required_species=["H", "e-", "H+", "H2"])
